@@ -142,8 +142,23 @@ RRemove(s, e) ==
            t == [t0 EXCEPT !.last = NObs[Here(t0)]] IN
        Out(ObsVerdict("Remove.observation", t, e.o, cs.cmp, cs.pf), t, slots)
 
+\* operations outside the tracked reference system: no rule except "no panic"
+RFree(s, e) ==
+  IF e.res = "panic" \/ e.res = "abort" THEN Out(Verdict("Free.panic", e.op), s, slots)
+  ELSE Out(Good, FreeF(s, e.o), slots)
+
+\* a jump with call-stack reset keeps globals and counts, abandons tunnels, threads, functions (C17)
+RJumpReset(s, e) ==
+  IF e.res # "ok" THEN Out(Verdict("Jump.result", e.res), s, slots)
+  ELSE IF e.o.vars # s.last.vars THEN Out(Verdict("Jump.variables", "vars"), FreeF(s, e.o), slots)
+  ELSE IF e.ja # e.jb THEN Out(Verdict("Jump.counts", "visits"), FreeF(s, e.o), slots)
+  ELSE IF e.o.frames # 1 \/ e.o.nthreads # 1 THEN Out(Verdict("Jump.callstack", "frames"), FreeF(s, e.o), slots)
+  ELSE Out(Good, FreeF(s, e.o), slots)
+
 Rule(s, e) ==
-  CASE e.cls = "valid"    -> IF s.pend THEN RBad(s, e, "Guarded.call") ELSE RValid(s, e, e.lab, ValidF)
+  CASE e.cls = "free" \/ (s.lost /\ e.cls \in {"valid", "cont", "choose", "reg", "slice", "switch", "switchdef", "remove", "eval", "bad"}) -> RFree(s, e)
+    [] e.cls = "jumpreset" -> RJumpReset(s, e)
+    [] e.cls = "valid"    -> IF s.pend THEN RBad(s, e, "Guarded.call") ELSE RValid(s, e, e.lab, ValidF)
     [] e.cls = "reg"      -> IF s.pend THEN RBad(s, e, "Guarded.register") ELSE RValid(s, e, e.lab, RegisterF)
     [] e.cls = "bad"      -> RBad(s, e, "Rejected." \o e.op)
     [] e.cls = "cont"     -> RCont(s, e)
@@ -204,7 +219,7 @@ Call ==
      THEN /\ PrintT(<<"MISMATCH", l, cs.case, "Uncovered", "instance">>)
           /\ cs' = [cs EXCEPT !.skip = TRUE] /\ nbad' = nbad + 1 /\ UNCHANGED <<st, slots>>
      ELSE LET r == Rule(st[e.i], e)
-              probe == e.cls \notin {"valid", "reg", "cont", "choose"} \/ r.rej IN
+              probe == e.cls \notin {"valid", "reg", "cont", "choose", "free"} \/ r.rej IN
           IF r.v.ok
           THEN /\ st' = [st EXCEPT ![e.i] = r.s]
                /\ slots' = r.sl
